@@ -228,7 +228,7 @@ type traceLine struct {
 var (
 	reLoc   = regexp.MustCompile(`([0-9a-fA-F]{2}):([0-9a-fA-F]{4})[|│]`)
 	reRegs  = regexp.MustCompile(`A[=:]([^ \t|│]{2,6})[ \t]+X[=:]([^ \t|│]{2,6})[ \t]+Y[=:]([^ \t|│]{2,6})`)
-	reFlags = regexp.MustCompile(`(?:^|[ |│\t])([nN-][vV-][mM-][xX-][dD-][iI-][zZ-][cC-])(?:[ |│\t\n]|$)`)
+	reFlags = regexp.MustCompile(`(?:^|[ |│\t])([nN-][vV-][mM1-][xXbB-][dD-][iI-][zZ-][cC-])(?:[ |│\t\n]|$)`)
 	reHex4  = regexp.MustCompile(`[0-9a-f]{4}`)
 	reSP    = regexp.MustCompile(`(?:^|[ \t|│])S[Pp]?[=:]([0-9a-fA-F]{4})(?:[ \t|│]|$)`)
 )
@@ -398,6 +398,9 @@ func checkTraceLine(t *traceLine, r Regs, ins []byte) (oracle, msg string) {
 	}
 	fl := []byte{r.N, r.V, r.M, r.X, r.D, r.I, r.Z, r.C}
 	for i, f := range fl {
+		if r.E == 1 && (i == 2 || i == 3) {
+			continue // emulation mode: bits 5 and 4 are "1" and the break flag in 6502 notation; either rendering is fine
+		}
 		set := t.Flags[i] != '-'
 		if set != (f != 0) {
 			return "trace_flags", fmt.Sprintf("flags nvmxdizc = %v; the line shows %q", fl, t.Flags)
